@@ -17,6 +17,13 @@ def _IN():
     return interp
 
 
+class DataLoaderIter:
+    """symbolic-length iteration over a data set (needs a loop contract at the for statement)"""
+
+    def __init__(self, ds, n):
+        self.ds, self.n = ds, n
+
+
 def install(I, torch):
     IN = _IN()
     B = IN.Builtin
@@ -151,6 +158,26 @@ def install(I, torch):
             "ModuleList": ModuleList,
         },
     )
+    Dataset = NativeClass("torch.utils.data.Dataset")
+    DataLoader = NativeClass("torch.utils.data.DataLoader")
+
+    def dl_init(I2, self, dataset=None, batch_size=1, shuffle=False, **kw):
+        self.f["dataset"] = dataset
+        self.f["batch_size"] = batch_size
+        self.f["_tpv_shuffle"] = shuffle
+
+    def dl_iter(I2, self):
+        """assumed contract (A5): batch_size=None, shuffle=False yields ds[0], ..., ds[len(ds)-1] once each"""
+        ds = self.f["dataset"]
+        n = I2.pylib.b_len(I2, ds)
+        if self.f["batch_size"] is not None or self.f["_tpv_shuffle"]:
+            raise Unsupported("DataLoader with automatic batching / shuffling")
+        if isinstance(n, Sym):
+            return DataLoaderIter(ds, n)
+        return [I2.call_method(ds, "__getitem__", [i]) for i in range(n)]
+
+    DataLoader.native_methods.update({"__init__": dl_init, "__iter__": dl_iter, "__len__": lambda I2, self: I2.pylib.b_len(I2, self.f["dataset"])})
+    torch.table["utils"] = S("torch.utils", {"data": S("torch.utils.data", {"Dataset": Dataset, "DataLoader": DataLoader}), "DataLoader": DataLoader})
     torch.table["nn"] = nn
     I.nn_module_class = Module
     I.repo.externals["pytorch_lightning"] = S(
